@@ -66,7 +66,9 @@ pub mod lab {
     pub const DEFAULT_PANIC: u32 = 49;
     pub const CLONE_REENTRANT: u32 = 50;
     pub const DEFAULT_CTOR: u32 = 51;
-    pub const NAMES: [&str; 52] = [
+    pub const CLONE_RING_IN: u32 = 52;
+    pub const CLONE_MAKES_UNIQUE: u32 = 53;
+    pub const NAMES: [&str; 54] = [
         "group>=2_collected",
         "group>=3_collected",
         "zero_count_death_with_records",
@@ -119,6 +121,8 @@ pub mod lab {
         "default_default_panicked_inside_rc_default",
         "payload_clone_reentered_the_api_in_make_mut",
         "constructed_by_rc_default",
+        "payload_clone_put_the_object_into_a_ring_and_dropped_its_outside_handles",
+        "payload_clone_removed_every_other_handle_to_the_object",
     ];
 }
 
